@@ -39,7 +39,7 @@ PROPS = {
     "C08": {"families": ["conform", "witness", "slowop", "regress", "core", "faults", "health", "conn", "stop", "prio"],
             "nontrivial_rule": "at least one promotion and one loss of leadership",
             "mc": ["MC_Core2", "MC_Faults", "MC_Abort", "MC_ValCancel"]},
-    "C09": {"families": ["conform", "witness", "stop", "core", "conn"],
+    "C09": {"families": ["conform", "witness", "regress", "stop", "core", "conn"],
             "nontrivial_rule": "a stop call with a store operation of that instance in flight or a leader being stopped",
             "mc": ["MC_Core2", "MC_Abort"]},
     "C10": {"families": ["slowop", "prio", "regress"],
